@@ -59,7 +59,7 @@ var engineOpts = scen.GenOpts{
 	World: world.Opts{MaxFlows: 3, MaxNodes: 5, Languages: []string{"fra"}, WebhookRefs: true,
 		// few action types, so that webhook calls with saved results followed by waits and templates are frequent
 		Actions:     []string{"call_webhook", "call_webhook", "send_msg", "set_run_result", "enter_flow", "set_contact_field", "call_resthook", "call_classifier"},
-		WebhookCmds: []string{"null", "null", "scalar", "zero", "emptyobj", "emptyarr", "casevariant"},
+		WebhookCmds: []string{"null", "null", "scalar", "zero", "emptyobj", "emptyarr", "casevariant", "true", "false"},
 		Templates: []string{"@webhook", "@webhook.json", "@(json(webhook))", "@webhook.status", "@webhook.headers", "@(webhook.json.name)", "@(default(webhook.json, \"none\"))", "@(webhook.json[0])", "@(count(webhook.json))",
 			"@webhook", "@webhook.json", "@(json(webhook.json))", "@legacy_extra", "@(json(legacy_extra))", "@legacy_extra.name",
 			"@child", "@(json(child))", "@parent", "@(json(parent.results))", "@input", "@(json(input))", "@(input.attachments[0])", "@resume", "@(json(trigger))", "@node", "@(json(run))", "@results", "@(foreach(results, (r) => r.value))"}},
